@@ -1,5 +1,6 @@
 import Dashu.Proofs.Int.Bits
 import Dashu.Proofs.Int.BitsPrim
+import Dashu.Proofs.Int.BitsSpecFast
 /-
   C09 — Bit operations follow infinite two's-complement semantics.
 
@@ -300,6 +301,28 @@ theorem driver_specs (n : Nat) :
   by_cases hI : IsTz n (Nat.log2 (n ^^^ (n - 1)))
   · rw [if_pos hI] at h; cases h; exact hI
   · rw [if_neg hI] at h; cases h
+
+/-- **huge `usize` arguments.**  For shift counts / bit positions up to `usize::MAX` the driver cannot form `2^n`; it
+    evaluates the specification through these guarded functions (they decide `|x| < 2^n` from the bit length and then
+    return the operand, `0` or `−1`).  They ARE the specification, for all arguments — so the correspondence run compares
+    the real code with `x / 2^n`, `x % 2^n`, bit `n`, `x & !2^n` also at `n = 2^32`, `2^63`, `usize::MAX − k`. -/
+theorem driver_specs_huge (x : Int) (m n : Nat) :
+    fastSpecShr x n = x / (2 : Int) ^ n ∧ fastSpecBit x n = Int.testBit x n ∧
+    fastDivPow2 m n = m / 2 ^ n ∧ fastModPow2 m n = m % 2 ^ n ∧ fastClearBit m n = natAndNot m (2 ^ n) :=
+  ⟨fastSpecShr_eq x n, by rw [fastSpecBit_eq, specBit_eq_testBit], fastDivPow2_eq m n, fastModPow2_eq m n,
+   fastClearBit_eq m n⟩
+
+/-- what the operations must return for a count beyond the operand (the class the huge arguments exercise): a value below
+    `2^n` shifted right by `n` is `0` (`−1` if negative), its low `n` bits are the value itself, bit `n` is the sign -/
+theorem beyond_the_length (x : Int) (m n : Nat) (hx : x.natAbs < 2 ^ n) (hm : m < 2 ^ n) :
+    x / (2 : Int) ^ n = (if x < 0 then -1 else 0) ∧ Int.testBit x n = decide (x < 0) ∧
+    m / 2 ^ n = 0 ∧ m % 2 ^ n = m := by
+  have hp : (0 : Int) < (2 : Int) ^ n := Int.pow_pos (by decide)
+  have hc : ((2 ^ n : Nat) : Int) = (2 : Int) ^ n := by simp
+  have e := int_ediv_small x ((2 : Int) ^ n) hp (by omega) (by omega)
+  refine ⟨e, ?_, Nat.div_eq_of_lt hm, Nat.mod_eq_of_lt hm⟩
+  rw [← specBit_eq_testBit]; unfold specBit; rw [e]
+  by_cases hx0 : x < 0 <;> simp [hx0]
 
 -- ================================================================== primitive operands
 
